@@ -322,7 +322,9 @@ def evShape (st : St) (n : Node) : EvRes × St :=
     match (st.getInfo x).shape with
     | none => (.none, st)
     | some s =>
-      match intAttr n "start" (some 0) with
+      -- a `start` attribute that is present without an int value (a reference attribute) gives `None`,
+      -- and `shape[None:end]` starts at 0
+      match (some ((intAttr n "start" (some 0)).getD 0) : Option Int) with
       | none => (.error "shape: start not int", st)
       | some start =>
         let sl := pySlice s start (intAttr n "end" none)
